@@ -101,7 +101,6 @@ class AutofireCoil(SystemWideDevice):
         """
         if self._enabled:
             return
-        self._enabled = True
 
         self.debug_log("Enabling")
 
@@ -136,6 +135,9 @@ class AutofireCoil(SystemWideDevice):
                 PulseRuleSettings(duration=self.config['coil_overwrite'].get('pulse_ms', None),
                                   power=self.config['coil_overwrite'].get('pulse_power', None))
             )
+
+        # only enabled once the rule is written (writing it may raise, e.g. on coil limits)
+        self._enabled = True
 
     @event_handler(10)
     def event_disable(self, **kwargs):
